@@ -3,6 +3,7 @@ package converters
 import (
 	"bufio"
 	"encoding/binary"
+	"errors"
 	"fmt"
 	"io"
 	"log"
@@ -235,7 +236,9 @@ func NewCacheFile(cachePath string) (*cacheFile, error) {
 	// read the file header
 	fh := converterCacheFileHeader{}
 	if err := binary.Read(buffer, binary.LittleEndian, &fh); err != nil {
-		if err == io.EOF {
+		// An empty file is a new cache, a file shorter than the header
+		// was interrupted while it was created.
+		if err == io.EOF || err == io.ErrUnexpectedEOF {
 			if err := res.Reset(); err != nil {
 				return nil, fmt.Errorf("failed to reset cache file: %w", err)
 			}
@@ -253,20 +256,29 @@ func NewCacheFile(cachePath string) (*cacheFile, error) {
 	}
 
 	// Read all stream ids
+	tornTail := false
 	for {
 		streamSection := converterStreamSection{}
 		if err := binary.Read(buffer, binary.LittleEndian, &streamSection); err != nil {
 			if err == io.EOF {
 				break
 			}
+			if err == io.ErrUnexpectedEOF {
+				tornTail = true
+				break
+			}
 			return nil, fmt.Errorf("failed to read stream header: %w", err)
 		}
-		res.fileSize += streamHeaderSize
 
 		streamSize, err := skipStream(buffer)
 		if err != nil {
+			if errors.Is(err, io.EOF) || errors.Is(err, io.ErrUnexpectedEOF) {
+				tornTail = true
+				break
+			}
 			return nil, fmt.Errorf("failed to skip stream data: %w", err)
 		}
+		res.fileSize += streamHeaderSize
 
 		if info, ok := res.streamInfos[streamSection.StreamID]; ok {
 			if res.freeSize == 0 || res.freeStart > info.offset-streamHeaderSize {
@@ -279,6 +291,14 @@ func NewCacheFile(cachePath string) (*cacheFile, error) {
 			size:   uint64(streamSize),
 		}
 		res.fileSize += int64(streamSize)
+	}
+	if tornTail {
+		// The last stream was only partly written, e.g. because the process
+		// was killed in setData. Drop it, everything before it is complete.
+		log.Printf("Converter cache file(%q) ends in an incomplete stream, truncating it to %d bytes\n", res.cachePath, res.fileSize)
+		if err := file.Truncate(res.fileSize); err != nil {
+			return nil, fmt.Errorf("failed to truncate incomplete stream: %w", err)
+		}
 	}
 	if res.freeSize == 0 {
 		res.freeStart = res.fileSize
